@@ -1,5 +1,6 @@
 """Entry point: ./check <id> [--tier quick|thorough] [--replay file]"""
 import argparse
+import asyncio
 import importlib
 import os
 import sys
@@ -22,7 +23,7 @@ def main():
         if args.replay:
             return mod.replay(chk, args.replay)
         mod.run(chk)
-    except Exception:
+    except (Exception, asyncio.CancelledError):
         # a crash of the machinery itself must not look like a pass
         tb = traceback.format_exc()
         print(tb, file=sys.stderr)
